@@ -474,6 +474,22 @@ async fn main(plan: Plan) -> Outcome {
             }
         }
     }
+    // Optional: a node changes rack (same host id, same address): the client re-creates its
+    // Node object on the next topology fetch - here the event-driven, topology-only one -
+    // and the tablets that name it as a replica must follow.
+    if tape::chance("c15:relabel", 1, 4) {
+        let victim = tape::choose("c15:relabel_victim", plan.nodes as u64) as usize;
+        {
+            let mut w = world::world();
+            let r = w.cluster.nodes[victim].rack.clone();
+            w.cluster.nodes[victim].rack = format!("{r}x");
+            w.fault(Fault::Topology);
+            w.probe("node_changed_rack");
+            let ip = w.cluster.nodes[victim].ip;
+            w.broadcast_event("TOPOLOGY_CHANGE", crate::wire::body_event_topology("NEW_NODE", ip, 9042));
+        }
+        world::sleep_ns(4 * SEC).await;
+    }
     // Optional topology maintenance: a node leaves.
     let mut removed: Option<usize> = None;
     if plan.remove_node && plan.nodes > 2 {
@@ -535,6 +551,23 @@ async fn main(plan: Plan) -> Outcome {
             .map(|t| t.replicas.iter().map(|(n, s)| (host_ids[*n], *s)).collect())
             .unwrap_or_default();
         lookups += 1;
+        // Replica entries are the client's CURRENT Node objects (a re-created node must
+        // have been replaced in the tablets by maintenance).
+        for (n, _) in state.get_token_endpoints("kst", "tt", Token::new(token)).iter() {
+            let current = state.get_nodes_info().iter().find(|c| c.host_id == n.host_id);
+            if let Some(c) = current {
+                if !Arc::ptr_eq(c, n) {
+                    out.violation(
+                        &oid("stale_node_object"),
+                        format!(
+                            "token {token}: the tablet's replica entry for host {:?} is not the client's current Node object (rack {:?} vs current {:?})",
+                            n.host_id, n.rack, c.rack
+                        ),
+                    );
+                    break;
+                }
+            }
+        }
         if got != want {
             out.violation(
                 &oid("lookup_after_quiescence"),
